@@ -134,3 +134,23 @@ Lemma piece_layout_cut :
   | None => false
   end = true.
 Proof. split; vm_compute; reflexivity. Qed.
+
+(* Layouts that do not tile their bounding box.  Nothing above asks the cells to fill a rectangle (the hypotheses are wf
+   and in_quadrant only), and equal shapes do not mean aligned cells: brick_layout is three 2 x 1 bricks, two side by
+   side at x in [0,2], [2,4] and one on top of them at x in [1,3] (the corners [0,1] x [1,2] and [3,4] x [1,2] of the
+   bounding box stay empty).  Every brick is crossed through its middle by a side of another one; griddify halves each
+   of them (6 cells 1 x 1, one level deeper), so it is NOT the identity on a layout whose cells all have one shape. *)
+Definition brick_layout : list cell :=
+  [ mkCell (mkRect (qc 1 1) (qc 1 2) (qc 2 1) (qc 1 1) false false "_" NOPOLY) [("M1"%string, qc 1 2); ("M2"%string, qc 1 4)] 0;
+    mkCell (mkRect (qc 3 1) (qc 1 2) (qc 2 1) (qc 1 1) false false "_" NOPOLY) [("M2"%string, qc 1 2)] 0;
+    mkCell (mkRect (qc 2 1) (qc 3 2) (qc 2 1) (qc 1 1) false false "_" NOPOLY) [("M1"%string, qc 1 4); ("M3"%string, qc 3 4)] 0 ].
+Lemma brick_layout_cut :
+  forallb (fun c => Qceqb (rw (crect c)) (qc 2 1) && Qceqb (rh (crect c)) (qc 1 1)) brick_layout = true /\
+  match griddify_cells (qc 1 1048576) (qc 1 100) brick_layout with
+  | Some new => has_box 0 0 (qc 1 1) (qc 1 1) new && has_box (qc 1 1) 0 (qc 2 1) (qc 1 1) new &&
+                has_box (qc 2 1) 0 (qc 3 1) (qc 1 1) new && has_box (qc 3 1) 0 (qc 4 1) (qc 1 1) new &&
+                has_box (qc 1 1) (qc 1 1) (qc 2 1) (qc 2 1) new && has_box (qc 2 1) (qc 1 1) (qc 3 1) (qc 2 1) new &&
+                Nat.eqb (List.length new) 6 && forallb (fun c => Nat.eqb (cdepth c) 1) new
+  | None => false
+  end = true.
+Proof. split; vm_compute; reflexivity. Qed.
